@@ -51,8 +51,10 @@ def gen_value(rng, depth=0):
     if depth < 2 and r < 0.25:
         return [gen_value(rng, depth + 1) for _ in range(rng.randint(0, 3))]
     if depth < 2 and r < 0.45:
-        return {rng.choice(['a', 'b', 'ç', '']): gen_value(rng, depth + 1) for _ in range(rng.randint(0, 2))}
-    return rng.choice([None, True, False, 0, 1, -7, 3.5, '', 'x', 'naïve ☃', '1', [], {}])
+        return {rng.choice(['a', 'b', 'ç', '', 'k\udce9']): gen_value(rng, depth + 1) for _ in range(rng.randint(0, 2))}
+    return rng.choice([None, True, False, 0, 1, -7, 3.5, '', 'x', 'naïve ☃', '1', [], {},
+                       # a file name that is not UTF-8 as os.fsdecode gives it (lone surrogate), a non-BMP character
+                       'caf\udce9.txt', '\U0001F600'])
 
 
 def gen_values(rng, n):
